@@ -34,9 +34,9 @@ Definition link_ok (f' : fsT) (link : bytes) (auto_dir : bytes) (explicit : opti
 
 Definition in_export_tree (c : cfgT) (p : bytes) : bool := under (c_exports c) p.
 
-Definition step_spec (c : cfgT) (w : wobs) (s : step) : bool :=
-  if negb (plain_env (s_env s)) then true else
-  let f := wo_fs w in let f' := wo_fs (after w s) in
+Definition step_spec (c : cfgT) (w : wobs) (v : sview) : bool :=
+  if negb (plain_env (v_env v)) then true else
+  let f := wo_fs w in let f' := wo_fs (v_after v) in
   (* an export entry that is not a symlink is never deleted or replaced, whatever the command *)
   forallb (fun e => if in_export_tree c (fst e) then
                       match snd e with
@@ -45,7 +45,7 @@ Definition step_spec (c : cfgT) (w : wobs) (s : step) : bool :=
                       end
                     else true) f
   &&
-  match s_cmd s, s_res s with
+  match v_cmd v, v_res v with
   | CMount n, ROk =>
     forallb (fun x =>
       link_ok f' (pkg_link c (l_name x)) (pathjoin [l_path x; c_binpkg c]) (explicit_target c x (bs "package_export"))
@@ -60,7 +60,7 @@ Definition step_spec (c : cfgT) (w : wobs) (s : step) : bool :=
   | _, _ => true
   end.
 
-Definition spec (c : case) : bool := along (step_spec (c_cfg c)) (w0 c) (c_steps c).
+Definition spec (c : case) : bool := along_views (step_spec (c_cfg c)) (w0 c) (c_steps c).
 Definition wf := LC.wf.
 Definition kf (c : case) : N := 0.
 Definition verdict (c : case) : N := mkverdict (wf c) (LC.corr c) (spec c) (kf c).
